@@ -15,6 +15,7 @@ def zeros (n : Nat) : List Rat := List.replicate n 0
 
 /-- weights of one target `t` over ascending `xs` (linear, extrapolating end segments) -/
 def col : List Rat → Rat → List Rat
+  | [_], _ => [1]       -- one source level: the only line through one point is the constant (repaired code)
   | [x0, x1], t => let f := (t - x0) / (x1 - x0); [1 - f, f]
   | x0 :: x1 :: x2 :: rest, t =>
     if t ≤ x1 then let f := (t - x0) / (x1 - x0); (1 - f) :: f :: zeros (rest.length + 1)
@@ -113,14 +114,14 @@ def run : List String → String
   | ["weights", ex, xs, nxs] =>
     match parseList parseRat xs, parseList parseRat nxs with
     | some x, some n =>
-      if x.length < 2 then "err short"
+      if x.length < 1 then "err short"
       else if !(isAsc x || isDesc x) then "err nonmonotone"
       else s!"ok {showRows showRat (weightMatrix (ex == "1") x n)}"
     | _, _ => "err parse"
   | ["linear", ex, xs, nxs, data] =>
     match parseList parseRat xs, parseList parseRat nxs, parseList parseRat data with
     | some x, some n, some d =>
-      if x.length < 2 then "err short"
+      if x.length < 1 then "err short"
       else if !(isAsc x || isDesc x) then "err nonmonotone"
       else s!"ok {showList showRat (linearApply (ex == "1") x n d)}"
     | _, _, _ => "err parse"
